@@ -256,11 +256,24 @@ def check(repo: Repo, res: CheckResult, prop: str, only: Optional[Tuple[str, ...
                 n_b += 1
                 q = m.qualname(fn)
                 res.evaluated(f"memo:B:{m.rel}:{q}:{norm(tgt.value)}", True)
-                if (m.rel, q) in EXEMPT:
-                    continue
+                exempt = (m.rel, q) in EXEMPT      # (exempt from the per-parameter rules, not from the digest rule)
                 deps = param_deps(fn, val, params)
                 keys = param_deps(fn, tgt.slice, params)
                 missing = deps - keys
+                # the key is a DIGEST of what the value is computed from (hash / repr / str / len / id of it): different requests
+                # with the same digest share the entry (hash(-1) == hash(-2), classes with one repr, recycled ids)
+                kexprs = [tgt.slice] + [a for nm in ast.walk(tgt.slice) if isinstance(nm, ast.Name) for a in _assigned_values(fn, nm.id)]
+                digests = [c for e in kexprs for c in ast.walk(e) if isinstance(c, ast.Call) and isinstance(c.func, ast.Name)
+                           and c.func.id in ("hash", "repr", "str", "len", "id") and c.args
+                           and any(isinstance(x, ast.Name) and (x.id in params or x.id in deps) for x in ast.walk(c))]
+                if digests:
+                    res.add(Finding(prop, "MEMO.key-is-a-digest", m.rel, q, norm(st)[:100],
+                                    f"`{norm(tgt)}`: the key is `{norm(digests[0])[:60]}`, a digest of what the value is computed from, not the "
+                                    "objects themselves: two different requests with the same digest (hash(-1) == hash(-2); two classes "
+                                    "with one repr) share the entry and the later one gets the answer of the earlier", st.lineno))
+                    continue
+                if exempt:
+                    continue
                 if not missing:
                     proj = _projected(fn, val, tgt.slice, params)
                     if proj:
